@@ -37,7 +37,8 @@ WithTimes(i, w) == /\ Len(objs) < MaxObjs
                    /\ Fixed /\ UNCHANGED nbasis
 (* a window that starts where the construction grid starts (as seen by the object), has exactly the number of samples of one
    FFT period and another stride: everything about it matches the internal FFT grid except the step *)
-FullPeriod(i, st) == WithTimes(i, <<W0 + objs[i].delay, uniq * n, st>>)
+UniqInt == IF uniq = 25 THEN 2 ELSE uniq            \* 25 stands for the factor 2.5, which the implementation truncates
+FullPeriod(i, st) == WithTimes(i, <<W0 + objs[i].delay, UniqInt * n, st>>)
 Shift(i, d) == /\ objs' = [objs EXCEPT ![i].w0 = @ + d, ![i].delay = @ + d]
                /\ last' = [op |-> "Shift", a |-> i, d |-> d]
                /\ Fixed /\ UNCHANGED nbasis
